@@ -310,6 +310,41 @@ func BuildBase(name string, cfg Config, seed uint32) (*Base, error) {
 		bb.key("nz", 0x00CC0001)
 		bb.key("y", 0x00DD0002)
 		return bb.finish([]string{"h0", "m0", "t0", "n0", "n1", "nz", "y"}, []string{"l005", "l040", "l070"})
+	case "FL2":
+		// two entries on the free list and a chain of three exactly full buckets: LCS, then the split (all
+		// keys stay, the chain is rebuilt in two new overflow buckets and the two old ones go to the free
+		// list), then same-chain keys until the third bucket is full. The next same-chain insert takes ONE
+		// of the two free buckets.
+		for i := 0; i < 300 && bb.err == nil; i++ {
+			vi, err := bb.s.DB.VerifIndex()
+			if err != nil {
+				bb.err = err
+				break
+			}
+			if len(vi.FreeList) == 2 && len(vi.Chains[0]) == 3 {
+				full := true
+				for _, sl := range vi.Chains[0][2].Slots {
+					full = full && sl.Offset != 0
+				}
+				if full {
+					break
+				}
+			}
+			r := fmt.Sprintf("l%03d", i)
+			bb.key(r, uint32(i+1)<<8)
+			bb.put(r)
+		}
+		if bb.err != nil {
+			return nil, bb.err
+		}
+		bb.alias("h0", bb.at(0, 0, 0))
+		bb.alias("m0", bb.at(0, 1, 0))
+		bb.alias("t0", bb.at(0, 2, 30))
+		bb.key("n0", 0x00AA0000)
+		bb.key("n1", 0x00BB0000)
+		bb.key("nz", 0x00CC0001)
+		bb.key("y", 0x00DD0002)
+		return bb.finish([]string{"h0", "m0", "t0", "n0", "n1", "nz", "y"}, []string{"l005", "l040", "l070"})
 	case "FL":
 		// non-empty free list and two chains whose head buckets are exactly full: SP, then the split
 		// (bucket 0 keeps 31 keys, its overflow bucket goes to the free list), then bucket 1 filled to 31.
